@@ -267,6 +267,35 @@ class VEnvObj(V):
         st.ghost['obj:%d' % self.oid] = v
 
 
+def file_state(st, obj):
+    """(path term, everything written so far, still open?)"""
+    p, w, o = obj.get(st).items[:3]
+    return p.z, w.z, o
+
+
+def file_set(st, obj, p, w, o):
+    obj.set(st, VTuple([VStr(p), VContent(w), o, obj.get(st).items[3]]))      # [3]: the .name attribute (path at creation)
+
+
+def new_file(st, path):
+    o = VEnvObj('File')
+    o.set(st, VTuple([VStr(path), VContent(cempty), VBool(z3.BoolVal(True)), VStr(path)]))
+    st.ghost['env.open_files'] = VTuple(st.ghost.get('env.open_files', VTuple([])).items + [o])
+    return o
+
+
+def file_close(self, st, obj):
+    """close / leaving the with block: everything written reaches the file the descriptor refers to (which is wherever
+    the file has been renamed to in the meantime)"""
+    p, w, o = file_state(st, obj)
+    if z3.is_false(z3.simplify(o.z)):
+        return
+    env_set(st, 'fs_content', z3.Store(env_get(st, 'fs_content'), p, w))
+    env_set(st, 'fs_stamp', z3.Store(env_get(st, 'fs_stamp'), p, fresh('stamp', T.I)))
+    file_set(st, obj, p, w, VBool(z3.BoolVal(False)))
+    self.env_crash_point(st, 'close')
+
+
 def m_bi_hashlib_sha1(self, st, pos, kws, k):
     o = VEnvObj('Sha1')
     o.set(st, VHAcc(hempty))
@@ -299,8 +328,7 @@ def m_bi_open(self, st, pos, kws, k):
     env_set(st, 'fs_content', z3.Store(env_get(st, 'fs_content'), p, cempty))
     # the new stamp (mtime in seconds, size) is unconstrained: it may or may not equal the old one
     env_set(st, 'fs_stamp', z3.Store(env_get(st, 'fs_stamp'), p, fresh('stamp', T.I)))
-    o = VEnvObj('File')
-    o.set(st, VStr(p))
+    o = new_file(st, p)
     self.env_crash_point(st, 'open(w)')
     return k(st, o)
 
@@ -323,8 +351,7 @@ def m_bi_tempfile_NamedTemporaryFile(self, st, pos, kws, k):
     env_set(st, 'fs_content', z3.Store(env_get(st, 'fs_content'), t, cempty))
     env_set(st, 'fs_stamp', z3.Store(env_get(st, 'fs_stamp'), t, fresh('stamp', T.I)))
     st.ghost['env.own_tmp'] = VTuple(st.ghost.get('env.own_tmp', VTuple([])).items + [VStr(t)])
-    o = VEnvObj('File')
-    o.set(st, VStr(t))
+    o = new_file(st, t)
     self.env_crash_point(st, 'NamedTemporaryFile')
     return k(st, o)
 
@@ -339,6 +366,15 @@ def m_bi_os_replace(self, st, pos, kws, k):
         env_set(st, 'fs_content', z3.Store(fc, b, z3.Select(fc, a)))
         env_set(st, 'fs_stamp', z3.Store(fs, b, z3.Select(fs, a)))
         env_set(st, 'fs_exists', z3.Store(z3.Store(fe, b, True), a, a == b))
+        # a file of this process that is still open keeps its descriptor: what it has buffered reaches the NEW name at close
+        for o in st.ghost.get('env.open_files', VTuple([])).items:
+            fp, fw, fo = file_state(st, o)
+            if z3.is_false(z3.simplify(fo.z)):
+                continue
+            if fp.eq(a):
+                file_set(st, o, b, fw, fo)
+            elif self.feasible(st, fp == a):
+                raise Untranslated('os.replace of a path that may be an open file of this process')
         self.env_crash_point(st, 'os.replace')
         return k(st, VNone())
     return self.with_raises(st, [(z3.Not(z3.Select(fe, a)), 'FileNotFoundError')], cont)
@@ -358,19 +394,24 @@ def m_env_method(self, st, obj, attr, pos, kws, k):
         if attr == 'hexdigest':
             return k(st, VStr(sha1hex(acc)))
     if obj.cls == 'File':
-        p = obj.get(st).z
+        p, w, o = file_state(st, obj)
         if attr == 'write':
             s = self.as_str(pos[0])
+            # writes are BUFFERED: what is on disk while the file is open is some part of what has been written (here:
+            # anything at all); everything written is on disk only after flush() / close() / leaving the with block
+            file_set(st, obj, p, capp(w, s), o)
             c = env_get(st, 'fs_content')
-            env_set(st, 'fs_content', z3.Store(c, p, capp(z3.Select(c, p), s)))
-            # (a crash in the middle of a write leaves an arbitrary prefix of the chunk: covered by the crash point
-            #  of the operation that created / truncated the file, after which the content is not honest any more
-            #  until the last chunk is written - unless the file is a temporary one)
+            env_set(st, 'fs_content', z3.Store(c, p, fresh('partial', Content)))
             self.env_crash_point(st, 'write')
-            return k(st, VInt(z3.Length(s)))
+            return self.with_raises(st, [(z3.Not(o.z), 'ValueError')], lambda st: k(st, VInt(z3.Length(s))))
         if attr == 'name':
-            return k(st, VStr(p))
-        if attr in ('close', 'flush'):
+            return k(st, obj.get(st).items[3])
+        if attr == 'flush':
+            env_set(st, 'fs_content', z3.Store(env_get(st, 'fs_content'), p, w))
+            self.env_crash_point(st, 'flush')
+            return k(st, VNone())
+        if attr == 'close':
+            file_close(self, st, obj)
             return k(st, VNone())
     if obj.cls == 'ReadFile':
         p = obj.get(st).z
@@ -431,6 +472,10 @@ def m_env_load_module(self, st, name, path, k):
         st.ghost['g_last_loaded'] = VContent(eff)
         return k(st, VRef(m, 'Module'))
     return self.with_raises(st, [(z3.Not(z3.Select(fe, path)), 'FileNotFoundError')], exists)
+
+
+def m_env_file_close(self, st, obj):
+    return file_close(self, st, obj)
 
 
 def install(Engine):
